@@ -7,12 +7,12 @@ PROP = dict(
         "ntp_proto::packet::v5::extension_fields::ReferenceIdRequest::serialize, RemoteBloomFilter::next_request",
     ],
     bounds="NTS sources: every cookie length 0..=1024 (symbolic), every stash fill 0..=8, the four protocol-version states, any reach/tries/poll desire 0..=17, every random draw; "
-           "per-field encoder: every cookie/placeholder length 0..=128 into a sufficient buffer, and lengths 0..=64 into every buffer size 0..=80, both wire formats; plain sources: all versions, any poll/reach/tries state",
-    outside="the composition 'datagram = header + fields + authenticator' inside NtpPacket::serialize / ExtensionFieldData::serialize / encode_encrypted for an NTS request is NOT "
+           "per-field encoder: every cookie/placeholder length 0..=64 into every buffer size 0..=80, both wire formats; plain sources: NTPv4 and NTPv4-upgrading, any poll/reach/tries state",
+    outside="handle_timer of a plain NTPv5 / just-upgraded source with the real NTPv5 builder+encoder (draft-id and reference-id request fields): 875 k steps, > 8 GB in the solver (c14_poll_plain_v5/_upgraded kept in c14.rs, not registered). The composition 'datagram = header + fields + authenticator' inside NtpPacket::serialize / ExtensionFieldData::serialize / encode_encrypted for an NTS request is NOT "
             "decided end-to-end: handle_timer + real builder + real encoder in one query does not finish (symex alone > 10 min and > 8 GB for 4 fields; every encoder iteration "
             "dispatches on a symbolic field kind at a symbolic cursor position). It is covered piecewise: handle_timer's decisions (c14_poll_timer_*), the builder's field list "
-            "(c13_poll_message_*), each field's encoded size (c14_ef_size), the sum (c14_budget), and the encoder loop itself by C24's round-trip harnesses. "
-            "Per-field encoded size for cookie lengths 129..=724 (the per-field harness with L <= 256 already needs > 8 GB in the solver; the encoder is the same loop, 32 bytes of zeros per iteration). Sizes of the fixed fields (unique id 36, draft id 28, reference-id request 20, authenticator 40 bytes) are taken from the wire format, not from a harness. "
+            "(c13_poll_message_*), each field's encoded size (c14_ef_nofit), the sum (c14_budget), and the encoder loop itself by C24's round-trip harnesses. "
+            "Per-field encoded size for cookie lengths 65..=724 (the per-field harnesses c14_ef_size_* with L <= 128 already need > 8 GB in the solver, kept in c14.rs, not registered; the encoder is the same loop, 32 bytes of zeros per iteration). Sizes of the fixed fields (unique id 36, draft id 28, reference-id request 20, authenticator 40 bytes) are taken from the wire format, not from a harness. "
             "Cookies longer than 1024 bytes (a 1024-byte receive buffer cannot deliver them)",
     assumptions=[
         "ideal AEAD sizes for the request authenticator: nonce 16 bytes, ciphertext = plaintext + 16 (AES-SIV)",
@@ -26,16 +26,10 @@ PROP = dict(
     harnesses=[
         H(NH, "c14", "c14_poll_timer_v4", "NTPv4 NTS source, all cookie lengths 0..=1024 and stash fills: Send+SetTimer or Reset, never a panic; requested count = min(missing, fit); the request asked for fits 1024 bytes", timeout=300),
         H(NH, "c14", "c14_poll_timer_v5", "same for upgrading / upgraded (incl. fallback to v4) / NTPv5 NTS sources", timeout=300),
-        H(NH, "c14", "c14_ef_size_cookie_v4", "real per-field encoder, cookie field, NTPv4 framing: occupies exactly max(16, 4 + L rounded up to 4) bytes (all L <= 128)", timeout=300),
-        H(NH, "c14", "c14_ef_size_cookie_v5", "same, NTPv5 framing (unpadded length field)", timeout=300),
-        H(NH, "c14", "c14_ef_size_placeholder_v4", "same for the cookie placeholder field, NTPv4", timeout=300),
-        H(NH, "c14", "c14_ef_size_placeholder_v5", "same for the cookie placeholder field, NTPv5", timeout=300),
-        H(NH, "c14", "c14_ef_nofit", "real per-field encoder when the remaining buffer is too small (L <= 64, room <= 80): error, never a panic; written iff it fits", timeout=300),
+        H(NH, "c14", "c14_ef_nofit", "real per-field encoder (cookie and placeholder field, both framings), L <= 64, every remaining buffer size <= 80: written iff it fits and then exactly max(16, 4 + L rounded up to 4) bytes; otherwise an error, never a panic", timeout=300),
         H(NH, "c14", "c14_budget", "margin rule vs. field sizes: fixed part + min(missing, floor(724/max(L,1))) cookie-sized fields <= 1024 for all L, fills, versions", timeout=120),
         H(NH, "c14", "c14_write_zeros_model", "loop-free write_zeros model = real loop (bytes, position, success) for n <= 40, room <= 48 (the model is only reached with padding-sized n)", timeout=300),
         H(NH, "c14", "c14_poll_plain_v4", "source without NTS, NTPv4, real builder + encoder: Send(<= 1024)+SetTimer, Reset or Demobilize; never a panic", timeout=300),
         H(NH, "c14", "c14_poll_plain_upgrading", "same, NTPv4 with upgrade request", timeout=300),
-        H(NH, "c14", "c14_poll_plain_upgraded", "same, just upgraded to NTPv5 (incl. fallback to NTPv4)", timeout=600),
-        H(NH, "c14", "c14_poll_plain_v5", "same, NTPv5 (draft id + reference-id request fields)", timeout=600),
     ],
 )
